@@ -17,7 +17,7 @@ import (
 	"github.com/WICG/webpackage/go/zz_verif/rcbor"
 )
 
-var refOpts = rcbor.Opts{Shortest: true, SortedMaps: true, OnlySubset: true, UTF8: false}
+var refOpts = rcbor.Opts{Shortest: true, SortedMaps: true, OnlySubset: true, UTF8: false, MaxDepth: 1 << 22}
 
 func refAccepts(x []byte) (bool, string) {
 	_, err := rcbor.DecodeAll(x, refOpts)
@@ -417,6 +417,23 @@ func run(r *mon.Run) {
 		check(r, x, "encoder-output", 499)
 	}
 	r.Distinct("encoder-output")
+
+	// deep nesting (inputs up to 1 MiB + 1 byte): valid towers of arrays / maps, and the same with a defect at the bottom
+	for di, depth := range []int{10, 100, 1000, 65536, 1 << 20} {
+		if !r.Mine(di) {
+			continue
+		}
+		arr := append(bytes.Repeat([]byte{0x81}, depth), 0x00)
+		check(r, arr, fmt.Sprintf("deep-arrays/%d", depth), 1)
+		check(r, arr[:depth], fmt.Sprintf("deep-arrays-truncated/%d", depth), 1)
+		check(r, append(bytes.Repeat([]byte{0x81}, depth), 0x18, 0x01), fmt.Sprintf("deep-arrays-nonshortest-leaf/%d", depth), 1)
+		if depth <= 65536 {
+			m := append(bytes.Repeat([]byte{0xa1, 0x00}, depth), 0x00) // {0: {0: ... 0}}
+			check(r, m, fmt.Sprintf("deep-maps/%d", depth), 1)
+			check(r, append(bytes.Repeat([]byte{0xa1, 0x00}, depth), 0xa2, 0x01, 0x00, 0x00, 0x00), fmt.Sprintf("deep-maps-unsorted-leaf/%d", depth), 1)
+		}
+		r.Distinct(fmt.Sprintf("deep|%d", depth))
+	}
 
 	// the repository's own test bundle
 	if r.Shard == 0 {
